@@ -326,4 +326,9 @@ def run(rep, facts, tier):
     if "A" in cfgs:
         from . import groupops
         groupops.check_identity_forms(rep, cfgs["A"], "C03")     # into_affine / into_group / cofactor forms denote their own operand
+    from . import groupops as _G
+    for _c in cfgs.values():
+        if _c.name != "R":
+            # in-place / swapped selection overrides hand out elements too: a stale coordinate compares equal and encodes differently
+            _G.check_core_overrides(rep, _c, _G.POINT_SORTS)
     rep.floor("encode_entry_points_total", n, 9)
